@@ -21,7 +21,7 @@ ASSUMPTIONS = [
     'molar volume oracle Vf chem phase T P > 0 (every chemical has a molar-volume model in the phase) and molecular weights MW > 0',
     'unit factors are positive rationals per unit string with a dimension tag (pint is an oracle); the table used in the correspondence is read from the real AbsoluteUnitsOfMeasure.conversion_factor',
     'the molar-volume memo of a volumetric view is reused while |dT|,|dP| < 1e-12 (ThermalCondition.in_equilibrium): vol_get is stated at the (T\',P\') of the memo entry, within 1e-12 of the current values; the generators never move T or P by less than 0.5',
-    'float rounding not modelled: values compared to 1e-9 relative; branch decisions are exact because inputs are dyadic',
+    'float rounding not modelled: values compared to 1e-9 relative; branch decisions are exact because inputs are dyadic; a total-flow setter is not exercised when the current total is a rounding-level residue of an exact cancellation (|F| < 1e-9 sum|x|, possible with the negative test flows)',
     'sparse storage invariant (stored keys = non-zero entries) is C09\'s; molar rows are modelled as dense vectors',
     'what a name -> position dict of MaterialIndexer._index_caches[(phases, chemicals)] holds is C10\'s subject: the model keeps WHICH dict the molar indexer of each stream consults and lets that dict answer for its own (phases, chemicals)',
     'MultiStream.from_streams: the adopted streams stay ordinary streams of the store (sharing rows and the ThermalCondition object with the new MultiStream); operations that go through the MultiStream\'s _streams dict (its phase / phases setters, _reset_thermo, link/unlink, copy_like as receiver) are C12\'s and skipped',
@@ -413,6 +413,17 @@ def nonempty_phases(s):
         return [p for p, r in zip(s._imol._phases, s._imol.data.rows) if r.any()]
     return [s.phase] if s._imol.data.any() else []
 
+def rounding_level_total(s, name):
+    """the total is an exact cancellation that float rounding turned into a tiny non-zero number (negative test flows): the
+    setters branch on `total != 0`, which is then decided by rounding, not by the modelled arithmetic"""
+    import numpy as np
+    try:
+        F_ = float(getattr(s, 'F_' + name))
+        comp = float(np.abs(np.asarray(getattr(s, 'i' + name).data.to_array(), float)).sum())
+    except Exception:
+        return False
+    return F_ != 0. and abs(F_) < 1e-9 * comp
+
 def apply_op(store, op):
     """Execute one raw op on the real objects.  Returns (resolved op, observation).  Raises what the code raises;
     the resolved op is attached to the exception as .resolved."""
@@ -460,6 +471,9 @@ def apply_op(store, op):
         res = ['get_total', i, op[2]]
         return res, run(lambda: [[fr_json(frac(s.get_total_flow(UNITS[op[2]])))]])
     if k == 'set_total':
+        nm = e['utab'][op[2]][0]
+        if nm in ('mol', 'mass', 'vol') and rounding_level_total(s, nm):
+            return ['skip'], None
         res = ['set_total', i, op[2], op[3]]
         return res, run(lambda: s.set_total_flow(op[3], UNITS[op[2]]))
     if k == 'set':
@@ -469,6 +483,8 @@ def apply_op(store, op):
             getattr(s, 'i' + op[2])[key] = op[5]
         return res, run(f)
     if k == 'setF':
+        if rounding_level_total(s, op[2]):
+            return ['skip'], None
         res = ['setF', i, op[2], op[3]]
         return res, run(lambda: setattr(s, 'F_' + op[2], op[3]))
     if k in ('T', 'P'):
